@@ -474,4 +474,92 @@ theorem leg_2reg_imm_formOk (ctx : Spec.X86.Ctx) (rule : Rule) (p : Parsed) (mb 
       by rcases hmk with h | h <;> omega⟩
 
 
+
+/-- legacy form without ModRM: [66|F3|F2]? [REX]? escape opcode (64-bit mode) -/
+theorem parse_legacy_op (r : Rule) (pp : Nat) (rex : Option (BitVec 8)) (o : BitVec 8)
+    (hpp : pp < 4) (hs : r.space = 0) (hfw : r.pp &&& 8 = 0) (hmap : r.map < 4) (hmk : r.modKind = 0)
+    (hrex : ∀ b, rex = some b → b.toNat / 16 = 4 ∧ isLegacyPrefix b false = false)
+    (ho : r.map = 0 → isLegacyPrefix o false = false ∧ (rex = none → o.toNat / 16 ≠ 4))
+    (himm : r.immBytes = 0) (hrel : r.relBytes = 0) (hmoff : r.moff = false) :
+    parse true r (ppBytes pp ++ rex.toList ++ legacyEscape r.map ++ [o]) =
+      .ok { prefixes := ppBytes pp, rex := rex, W := rexBit rex 3, R := rexBit rex 2, X := rexBit rex 1, B := rexBit rex 0,
+            map := r.map, opcode := o, imm := [],
+            length := (ppBytes pp).length + rex.toList.length + (legacyEscape r.map).length + 1 } := by
+  have hpp' : pp = 0 ∨ pp = 1 ∨ pp = 2 ∨ pp = 3 := by omega
+  have hmap' : r.map = 0 ∨ r.map = 1 ∨ r.map = 2 ∨ r.map = 3 := by omega
+  cases rex with
+  | none =>
+    rcases hmap' with m | m | m | m
+    · obtain ⟨ho1, ho2⟩ := ho m
+      have ho2' := ho2 rfl
+      rcases hpp' with h | h | h | h <;> subst h <;>
+        simp [parse, takePrefixes, isLP_66, isLP_F3, isLP_F2, isLP_0F, rexBit, ppBytes, legacyEscape, bind, Except.bind, pure, Except.pure, m, hs, hfw, hmk,
+          himm, hrel, hmoff, ho1, ho2']
+    all_goals
+      rcases hpp' with h | h | h | h <;> subst h <;>
+        simp [parse, takePrefixes, isLP_66, isLP_F3, isLP_F2, isLP_0F, rexBit, ppBytes, legacyEscape, bind, Except.bind, pure, Except.pure, m, hs, hfw, hmk,
+          himm, hrel, hmoff]
+  | some b =>
+    obtain ⟨hb1, hb2⟩ := hrex b rfl
+    rcases hmap' with m | m | m | m
+    all_goals
+      rcases hpp' with h | h | h | h <;> subst h <;>
+        simp [parse, takePrefixes, isLP_66, isLP_F3, isLP_F2, isLP_0F, rexBit, ppBytes, legacyEscape, bind, Except.bind, pure, Except.pure, m, hs, hfw, hmk,
+          himm, hrel, hmoff, hb1, hb2]
+
+theorem alignOps_nil (osz : Nat) (ops : List FormOp) (h : ops.all (·.implicit) = true) :
+    alignOps osz ops [] = some (ops.map (fun f => (f, Option.none))) := by
+  induction ops with
+  | nil => rfl
+  | cons f fs ih =>
+    simp only [List.all_cons, Bool.and_eq_true] at h
+    simp [alignOps, h.1, ih h.2]
+
+theorem operandConds_none (c : Spec.X86.Ctx) (r : Rule) (p : Parsed) (n : Nat) (ops : List FormOp) :
+    operandConds c r p n (ops.map (fun f => (f, Option.none))) = [] := by
+  induction ops with
+  | nil => rfl
+  | cons f fs ih => simp [operandConds, ih]
+
+theorem implMemOf_none (ops : List FormOp) : implMemOf (ops.map (fun f => (f, Option.none))) = Option.none := by
+  unfold implMemOf
+  generalize (Option.none : Option MemOp) = acc
+  induction ops generalizing acc with
+  | nil => rfl
+  | cons f fs ih => simp only [List.map_cons, List.foldl_cons]; exact ih acc
+
+theorem usesVvvv_none (ops : List FormOp) : usesVvvv (ops.map (fun f => (f, Option.none))) = false := by
+  induction ops with
+  | nil => rfl
+  | cons f fs ih => simp_all [usesVvvv]
+
+theorem memDestOf_none (ops : List FormOp) : memDestOf (ops.map (fun f => (f, Option.none))) = false := by
+  unfold memDestOf
+  have : (ops.map (fun f => (f, (Option.none : Option Operand)))).find? (fun fo => fo.2.isSome) = Option.none := by
+    induction ops with
+    | nil => rfl
+    | cons f fs ih => simp [List.find?, ih]
+  rw [this]
+
+
+/-- legacy form without explicit operands (class X86Op): every condition of the monitor holds -/
+theorem leg_nullary_formOk (ctx : Spec.X86.Ctx) (rule : Rule) (p : Parsed) (bytes : List (BitVec 8)) (pp : Nat)
+    (hmode : ((if ctx.mode64 then rule.modes &&& 2 else rule.modes &&& 1) != 0) = true)
+    (hs : rule.space = 0) (hpp8 : rule.pp &&& 8 = 0)
+    (h66 : (rule.pp &&& 1 != 0 || rule.osz == 16) = (pp == 1)) (hF3 : (rule.pp &&& 2 != 0) = (pp == 2)) (hF2 : (rule.pp &&& 4 != 0) = (pp == 3))
+    (hpplt : pp < 4) (hri : rule.ri = false) (ha67 : rule.a67 = false)
+    (himpl : rule.ops.all (·.implicit) = true)
+    (hparse : parse ctx.mode64 rule bytes = .ok p)
+    (hvk : p.vexKind = 0) (hpfx : p.prefixes = ppBytes pp) (hmodrm : p.modrm = Option.none) (hop : p.opcode.toNat = rule.opcode)
+    (hw : wWant rule = 2 ∨ p.W = (wWant rule == 1)) :
+    formOk ctx rule [] {} bytes = true := by
+  obtain ⟨c66, cF3, cF2, cF0, c9B, c67, cseg, ccont⟩ := count_ppBytes pp hpplt
+  have hleg : isLegacySpace rule = true := by simp [isLegacySpace, hs]
+  simp only [formOk, conds, alignOps_nil _ _ himpl, hparse, hmode]
+  simp only [allOk_cons, allOk_append, decorConds, headConds, prefixConds, modrmConds, operandConds_none, tailConds,
+    allOk_nil, memOperandOf, implMemOf_none, usesVvvv_none, memDestOf_none, hasBcst, hleg, hri, hmodrm, hpfx, hvk, c66, cF3, cF2, cF0, c9B, c67,
+    cseg, ccont, h66, hF3, hF2, List.foldl]
+  simp [hop, hs, hpp8, ha67, allOk]
+  exact ⟨hw, by simpa using c66, by simpa using cF3, by simpa using cF2, cF0, c9B, by omega, by simpa using ccont⟩
+
 end AsmjitVerif.Lemmas.X86Parse
